@@ -263,45 +263,85 @@ def rule_d1(ctx: Ctx) -> None:
     if not xy:
         raise AnalysisError(f"{fi.where}: `x, y = pos` not found")
     x, y = [unparse(e) for e in xy[0].targets[0].elts]
+    from ..affine import NotAffine, Poly, poly_of
+
+    PX, PY, ONE = Poly.sym("X"), Poly.sym("Y"), Poly.const(1) if hasattr(Poly, "const") else None
+    penv = {x: PX, y: PY}
+
+    def P(src: str) -> Poly:
+        return poly_of(ast.parse(src, mode="eval").body, {"x": PX, "y": PY})
+
     want = {
-        "DIR_EAST": {(f"{x} + 1", y), (f"{x} + 1", f"{y} + 1")},
-        "DIR_NORTH": {(x, f"{y} + 1"), (f"{x} + 1", f"{y} + 1")},
-        "DIR_WEST": {(x, y), (x, f"{y} + 1")},
-        "DIR_SOUTH": {(x, y), (f"{x} + 1", y)},
+        "DIR_EAST": {(P("x + 1"), P("y")), (P("x + 1"), P("y + 1"))},
+        "DIR_NORTH": {(P("x"), P("y + 1")), (P("x + 1"), P("y + 1"))},
+        "DIR_WEST": {(P("x"), P("y")), (P("x"), P("y + 1"))},
+        "DIR_SOUTH": {(P("x"), P("y")), (P("x + 1"), P("y"))},
     }
-    chain = [st for st in fi.body if isinstance(st, ast.If)]
-    if len(chain) != 1:
-        raise AnalysisError(f"{fi.where}: direction dispatch not recognised")
-    cur: Optional[ast.If] = chain[0]
+    side = {"DIR_EAST": "east (x+1 column)", "DIR_NORTH": "north (y+1 row)", "DIR_WEST": "west (x column)", "DIR_SOUTH": "south (y row)"}
+
+    def cells_of(arg: ast.AST):
+        """set of (poly, poly) for a display of 2-tuples; AnalysisError when a cell is not affine in x, y"""
+        if not isinstance(arg, (ast.Tuple, ast.List, ast.Set)):
+            raise AnalysisError(f"{fi.where}: cells `{unparse(arg)[:60]}` are not a display")
+        out = set()
+        for e in arg.elts:
+            if not (isinstance(e, ast.Tuple) and len(e.elts) == 2):
+                raise AnalysisError(f"{fi.where}: cell `{unparse(e)[:40]}` not recognised")
+            try:
+                out.add((poly_of(e.elts[0], penv), poly_of(e.elts[1], penv)))
+            except NotAffine:
+                raise AnalysisError(f"{fi.where}: cell `{unparse(e)[:40]}` is not affine in {x}, {y}")
+        return out
+
+    def show_cells(cs):
+        return sorted(f"({a}, {b})" for a, b in cs)
+
+    def judge(d: str, cells, node) -> None:
+        if d not in want:
+            if d == "DIR_NONE" and not cells:
+                return
+            raise AnalysisError(f"{fi.where}: direction `{d}` not recognised")
+        if cells == want[d]:
+            ctx.ok("C18-D1", fi.where, f"{d} shades the two sub-cells to the {side[d]} of the new point", node, fi)
+        else:
+            ctx.violation("C18-D1", fi, node, f"{d} shades {show_cells(cells)}; the two sub-cells on that side of the new point are {show_cells(want[d])}")
+        seen.add(d)
+
     seen = set()
     param = fi.params[2]
-    while cur is not None:
-        t = cur.test
-        if not (isinstance(t, ast.Compare) and unparse(t.left) == param and isinstance(t.ops[0], ast.Eq) and isinstance(t.comparators[0], ast.Name)):
-            raise AnalysisError(f"{fi.where}: direction test `{unparse(t)}` not recognised")
-        d = t.comparators[0].id
-        cells = set()
-        target_set = None
-        for st in cur.body:
-            if isinstance(st, ast.Expr) and isinstance(st.value, ast.Call) and isinstance(st.value.func, ast.Attribute) and st.value.func.attr == "update":
-                target_set = unparse(st.value.func.value)
-                arg = st.value.args[0]
-                for e in getattr(arg, "elts", []):
-                    if isinstance(e, ast.Tuple) and len(e.elts) == 2:
-                        cells.add((unparse(e.elts[0]), unparse(e.elts[1])))
-        if d not in want:
-            ctx.violation("C18-D1", fi, cur, f"unknown direction {d}")
-        elif cells == want[d]:
-            side = {"DIR_EAST": "east (x+1 column)", "DIR_NORTH": "north (y+1 row)", "DIR_WEST": "west (x column)", "DIR_SOUTH": "south (y row)"}[d]
-            ctx.ok("C18-D1", fi.where, f"{d} shades the two sub-cells to the {side} of the new point", cur, fi)
-            seen.add(d)
-        else:
-            ctx.violation("C18-D1", fi, cur, f"{d} shades {sorted(cells)}; the two sub-cells on that side of the new point are {sorted(want[d])}")
-            seen.add(d)
-        nxt = cur.orelse
-        cur = nxt[0] if len(nxt) == 1 and isinstance(nxt[0], ast.If) else None
+    chain = [st for st in fi.body if isinstance(st, ast.If)]
+    tables = [st for st in fi.body if isinstance(st, (ast.Assign, ast.AnnAssign)) and isinstance(st.value, ast.Dict) and st.value.keys
+              and all(isinstance(k, ast.Name) and k.id.startswith("DIR_") for k in st.value.keys)]
+    if len(chain) == 1 and not tables:
+        cur: Optional[ast.If] = chain[0]
+        while cur is not None:
+            t = cur.test
+            if not (isinstance(t, ast.Compare) and len(t.ops) == 1 and isinstance(t.ops[0], (ast.Eq, ast.Is)) and isinstance(t.left, ast.Name) and isinstance(t.comparators[0], ast.Name)
+                    and param in (t.left.id, t.comparators[0].id) and t.left.id != t.comparators[0].id):
+                raise AnalysisError(f"{fi.where}: direction test `{unparse(t)}` not recognised")
+            d = t.comparators[0].id if t.left.id == param else t.left.id
+            ups = [st for st in cur.body if isinstance(st, ast.Expr) and isinstance(st.value, ast.Call) and isinstance(st.value.func, ast.Attribute) and st.value.func.attr == "update" and len(st.value.args) == 1]
+            if len(ups) != 1 or len(cur.body) != 1:
+                raise AnalysisError(f"{fi.where}: branch for {d} not recognised")
+            judge(d, cells_of(ups[0].value.args[0]), cur)
+            nxt = cur.orelse
+            cur = nxt[0] if len(nxt) == 1 and isinstance(nxt[0], ast.If) else None
+            if nxt and cur is None:
+                raise AnalysisError(f"{fi.where}: trailing else of the direction dispatch not recognised")
+    elif len(tables) == 1 and not chain:
+        # dispatch table:  T = {DIR_EAST: (cells), ...};  shading.update(T.get(dir, ()))  /  shading.update(T[dir]) under a guard
+        tb = tables[0]
+        tname = unparse(tb.targets[0] if isinstance(tb, ast.Assign) else tb.target)
+        uses = [n for n in walk_no_nested(fi.node) if isinstance(n, ast.Call) and isinstance(n.func, ast.Attribute) and n.func.attr == "update" and len(n.args) == 1
+                and unparse(n.args[0]) in (f"{tname}.get({param}, ())", f"{tname}.get({param}, [])", f"{tname}.get({param}, set())", f"{tname}[{param}]")]
+        if len(uses) != 1:
+            raise AnalysisError(f"{fi.where}: how the direction table `{tname}` is used is not recognised")
+        for k, v in zip(tb.value.keys, tb.value.values):
+            judge(k.id, cells_of(v), v)
+    else:
+        raise AnalysisError(f"{fi.where}: direction dispatch not recognised")
     if seen != set(want):
-        ctx.violation("C18-D1", fi, chain[0], f"directions {sorted(set(want) - seen)} are not handled")
+        ctx.violation("C18-D1", fi, (chain or tables)[0], f"directions {sorted(set(want) - seen)} are not handled")
     rets = [st for st in fi.body if isinstance(st, ast.Return)]
     if rets and "self._add_point_new_perm" in unparse(rets[0].value) and f"({x}, {y})" in unparse(rets[0].value).replace("self._add_point_new_perm", ""):
         pass
@@ -311,9 +351,9 @@ GENERIC_FILES = ['permuta/patterns/meshpatt.py']
 
 
 def variants():
-    from ..selftest import generic_silent
+    from ..selftest import generic_equiv, generic_silent
 
-    return _variants() + generic_silent(GENERIC_FILES)
+    return _variants() + generic_silent(GENERIC_FILES) + generic_equiv(GENERIC_FILES)
 
 
 def _variants():
@@ -518,21 +558,53 @@ def rule_p1(ctx: Ctx) -> None:
         call = st.body[0].value if isinstance(st.body[0], ast.Expr) else None
         if not (isinstance(call, ast.Call) and isinstance(call.func, ast.Attribute) and call.func.attr == "append"):
             raise AnalysisError(f"{f.where}: split branch shape")
-        got.setdefault(unparse(call.func.value), []).append((unparse(st.test), unparse(call.args[0])))
+        got.setdefault(unparse(call.func.value), []).append((st.test, call.args[0]))
     if len(got) != 2:
         raise AnalysisError(f"{f.where}: expected one list of new columns and one of new rows")
+    from ..affine import NotAffine, Poly, poly_of
+
+    S, L = Poly.sym("S"), Poly.sym("L")
+
+    def rel_of(test: ast.AST, s_name: str, l_name: str):
+        """the test as a relation `s REL l` between the old coordinate and the new line, or None"""
+        if not (isinstance(test, ast.Compare) and len(test.ops) == 1):
+            return None
+        a, b, op = unparse(test.left), unparse(test.comparators[0]), type(test.ops[0])
+        sym = {ast.Lt: "<", ast.LtE: "<=", ast.Gt: ">", ast.GtE: ">=", ast.Eq: "==", ast.NotEq: "!="}.get(op)
+        if sym is None:
+            return None
+        if (a, b) == (s_name, l_name):
+            return sym
+        if (a, b) == (l_name, s_name):
+            return {"<": ">", "<=": ">=", ">": "<", ">=": "<=", "==": "==", "!=": "!="}[sym]
+        return None
+
     ok = True
     roles = {}
     for lst, pairs in got.items():
-        want_x = {(f"{sx} <= {x}", sx), (f"{sx} >= {x}", f"{sx} + 1")}
-        want_y = {(f"{sy} <= {y}", sy), (f"{sy} >= {y}", f"{sy} + 1")}
-        if set(pairs) == want_x:
-            roles[lst] = "x"
-        elif set(pairs) == want_y:
-            roles[lst] = "y"
-        else:
-            ok = False
-            ctx.violation("C18-P1", f, lp, f"old coordinate is mapped by {pairs}; a coordinate c splits around the new line l as: c (if c <= l) and c + 1 (if c >= l)")
+        role = None
+        for axis, (s_name, l_name) in (("x", (sx, x)), ("y", (sy, y))):
+            rels = [rel_of(t, s_name, l_name) for t, _v in pairs]
+            if all(r is not None for r in rels):
+                role = axis
+                try:
+                    vals = [poly_of(v, {s_name: S, l_name: L}) for _t, v in pairs]
+                except NotAffine:
+                    raise AnalysisError(f"{f.where}: new coordinate is not affine in the old one")
+                have = set(zip(rels, vals))
+                if have == {("<=", S), (">=", S + Poly.const(1))}:
+                    roles[lst] = axis
+                else:
+                    ok = False
+                    ctx.violation("C18-P1", f, lp, f"old coordinate is mapped by {[(unparse(t), unparse(v)) for t, v in pairs]}; a coordinate c splits around the new line l as: c (if c <= l) and c + 1 (if c >= l)")
+        if role is None:
+            # a coordinate compared with the line of the OTHER axis in one of the tests?
+            for axis, (s_name, l_name, other_l) in (("x", (sx, x, y)), ("y", (sy, y, x))):
+                rels = [(rel_of(t, s_name, l_name), rel_of(t, s_name, other_l)) for t, _v in pairs]
+                if all(a is not None or b is not None for a, b in rels) and any(b is not None for _a, b in rels) and any(a is not None for a, _b in rels):
+                    ctx.violation("C18-P1", f, lp, f"old coordinate `{s_name}` is split by {[(unparse(t), unparse(v)) for t, v in pairs]}: one of the tests compares it with `{other_l}`, the line of the other axis")
+                    return
+            raise AnalysisError(f"{f.where}: the tests {[unparse(t) for t, _v in pairs]} are not comparisons of an old coordinate with the new line")
     if not ok:
         return
     if sorted(roles.values()) != ["x", "y"]:
@@ -660,6 +732,8 @@ def rule_n2(ctx: Ctx) -> None:
                 return ("in" if isinstance(op, ast.In) else "notin", cell(l, var))
             if isinstance(op, (ast.NotEq, ast.Eq)) and isinstance(l, ast.Compare) and isinstance(r, ast.Compare):
                 return ("differ" if isinstance(op, ast.NotEq) else "alike", frozenset((canon(l, var), canon(r, var))))
+            if isinstance(op, (ast.NotEq, ast.Eq)) and isinstance(r, ast.Subscript) and unparse(r.value) == "self.pattern" and not (isinstance(l, ast.Subscript) and unparse(l.value) == "self.pattern"):
+                l, r = r, l  # symmetric comparison written the other way round
             if isinstance(l, ast.Subscript) and unparse(l.value) == "self.pattern" and isinstance(op, (ast.NotEq, ast.Eq)):
                 return ("pattern-ne" if isinstance(op, ast.NotEq) else "pattern-eq", lcanon(l.slice, var), lcanon(r, var))
             sym = {ast.Eq: "==", ast.NotEq: "!=", ast.Lt: "<", ast.LtE: "<=", ast.Gt: ">", ast.GtE: ">="}.get(type(op))
